@@ -54,7 +54,9 @@ fn rand_elems<E: FieldElement>(rng: &mut simcore::rng::Xoshiro, n: usize) -> Vec
 pub enum Work {
     Fft { elem: usize, op: usize, log_n: u32, blowup: usize, salt: u64 },
     Util { elem: usize, op: usize, n: usize, salt: u64 },
-    Merkle { hasher: usize, log_leaves: u32, salt: u64 },
+    /// `extra` leaves beyond 2^log_leaves: a count that is not a power of two must be refused by
+    /// both builds alike
+    Merkle { hasher: usize, log_leaves: u32, extra: usize, salt: u64 },
     Fri { elem: usize, op: usize, folding: usize, log_n: u32, salt: u64 },
     Matrix { elem: usize, op: usize, cols: usize, log_rows: u32, blowup: usize, hasher: usize, salt: u64 },
     /// full proof of a protocol-sim case; the tape values that generate it follow
@@ -81,7 +83,12 @@ pub fn gen_work(ch: &mut Chooser, thorough: bool) -> Work {
             n: *ch.choose("w.n", &[1024usize, 1000, 1023, 1025, 2048, 4096, 5000, 8192, 2049, 2051, 4097, 4098, 4102, 6151, 8191, 8193, 8196, 16385, 16390, 33000, 65537, 66051]),
             salt,
         },
-        2 => Work::Merkle { hasher: ch.index("w.hasher", 3), log_leaves: *ch.choose("w.logleaves", &[11u32, 10, 12, if thorough { 13 } else { 11 }]), salt },
+        2 => Work::Merkle {
+            hasher: ch.index("w.hasher", 3),
+            log_leaves: *ch.choose("w.logleaves", &[11u32, 10, 12, if thorough { 13 } else { 11 }]),
+            extra: *ch.choose("w.extraleaves", &[0usize, 0, 0, 0, 0, 1, 2, 476, 1023]),
+            salt,
+        },
         3 => Work::Fri {
             elem: ch.index("w.elem", 5),
             op: ch.index("w.friop", 2),
@@ -180,7 +187,11 @@ fn eval_util<B: StarkField, E: FieldElement<BaseField = B>>(op: usize, n: usize,
 }
 
 fn merkle_out<H: crypto::Hasher>(leaves: Vec<H::Digest>) -> Out {
-    let t = MerkleTree::<H>::new(leaves).expect("harness: merkle tree");
+    let t = match MerkleTree::<H>::new(leaves) {
+        Ok(t) => t,
+        // a refusal is a result like any other: both builds must give the same one
+        Err(e) => return vec![("merkle_tree_refused".into(), simcore::rng::fnv1a(format!("{e}").as_bytes()))],
+    };
     let root = simcore::rng::fnv1a(&t.root().to_bytes());
     // a batch opening exercises the inner nodes as well
     let idx: Vec<usize> = (0..t.leaves().len()).step_by(37).take(40).collect();
@@ -194,8 +205,8 @@ fn merkle_out<H: crypto::Hasher>(leaves: Vec<H::Digest>) -> Out {
     vec![("merkle_root".into(), root), ("merkle_inner_nodes".into(), simcore::rng::fnv1a(&nb))]
 }
 
-fn eval_merkle(hasher: usize, log_leaves: u32, salt: u64) -> Out {
-    let n = 1usize << log_leaves;
+fn eval_merkle(hasher: usize, log_leaves: u32, extra: usize, salt: u64) -> Out {
+    let n = (1usize << log_leaves) + extra;
     let mut rng = simcore::rng::Xoshiro::from_u64(salt);
     type B = f64::BaseElement;
     let data: Vec<B> = rand_elems(&mut rng, n);
@@ -372,7 +383,7 @@ pub fn eval(work: &Work, ch: &mut Chooser, thorough: bool) -> Out {
     match work.clone() {
         Work::Fft { elem, op, log_n, blowup, salt } => with_elem!(elem, eval_fft(op, log_n, blowup, salt)),
         Work::Util { elem, op, n, salt } => with_elem!(elem, eval_util(op, n, salt)),
-        Work::Merkle { hasher, log_leaves, salt } => eval_merkle(hasher, log_leaves, salt),
+        Work::Merkle { hasher, log_leaves, extra, salt } => eval_merkle(hasher, log_leaves, extra, salt),
         Work::Fri { elem, op, folding, log_n, salt } => with_elem!(elem, eval_fri(op, folding, log_n, salt)),
         Work::Matrix { elem, op, cols, log_rows, blowup, hasher, salt } => with_elem!(elem, eval_matrix(op, cols, log_rows, blowup, hasher, salt)),
         Work::Prove => {
